@@ -210,8 +210,13 @@ class MultiLayerAtmosphere(OpticalElement):
         self._dirty = False
 
     def reset(self):
+        '''Reset all atmospheric layers to t=0.
+        '''
         for l in self.layers:
             l.reset()
+
+        # All layers are back at t=0, so the atmosphere as a whole is as well.
+        self._t = 0
 
     @property
     def layers(self):
